@@ -12,7 +12,7 @@ ASSUME = [
 ]
 
 
-def types_file(scratch, tier, res=None):
+def types_file(scratch, tier, res=None, names=False):
     # both tiers start from the quick configuration (2 of 20 constructor steps); the thorough tier adds EVERY two-step construction.
     # Three-step constructions were dropped: they reach shapes (double pointers and one-element arrays deep inside containers) on
     # which the library's results depend on stale memory, so that two runs of the same check disagree.
@@ -29,6 +29,19 @@ def types_file(scratch, tier, res=None):
             types.append(t)
     r.generated += rm.generated
     r.distinct += rm.distinct
+    if names:
+        # member NAMES that HTML escaping respells or that are multi-byte (C01, C13): the four program copies per type carry the
+        # names pre-rendered.  Opt-in so that the catalogues of the decoding checks stay as recorded.
+        rn = vlib.run_tlc(scratch, "GoTypes", "GoTypes_gen_names.cfg", workers=4, timeout=600)
+        vlib.require_tlc_ok(rn, "GoTypes_gen_names.cfg")
+        seenn = {json.dumps(t, sort_keys=True) for t in types}
+        extra = [t for t in (rn.prints.get("TYPE") or []) if json.dumps(t, sort_keys=True) not in seenn
+                 and any(s.startswith("struct-named:") for s in t["steps"])]
+        if len(extra) < 50:
+            raise vlib.Infra("GoTypes_gen_names.cfg produced only %d named-member types" % len(extra))
+        types += extra
+        r.generated += rn.generated
+        r.distinct += rn.distinct
     if tier == "thorough":
         # plus every two-step construction with the full set of struct steps
         r2 = vlib.run_tlc(scratch, "GoTypes", "GoTypes_gen_full2.cfg", workers=8, timeout=900)
@@ -39,7 +52,9 @@ def types_file(scratch, tier, res=None):
                 types.append(t)
         r.generated += r2.generated
         r.distinct += r2.distinct
-    if len(types) < 1000:
+    if os.environ.get("VERIF_ONLY_NAMES") == "1":   # debugging aid: the named-member types (and the bare leaves) alone
+        types = [t for t in types if len(t["steps"]) == 0 or any(s.startswith("struct-named:") for s in t["steps"])]
+    elif len(types) < 1000:
         raise vlib.Infra("GoTypes produced only %d types" % len(types))
     types.sort(key=lambda t: (len(t["steps"]), t["leaf"], t["steps"]))
     p = os.path.join(scratch.path, "gotypes.ndjson")
@@ -185,7 +200,7 @@ def witnesses(scratch, binary, out):
 def run_typed(prop, check, tier, scratch, record, level, rule, assume, describe_fn, extra=None, with_table=False, with_witnesses=False,
               extra_tlc=()):
     t0 = time.time()
-    tp, tres, ntypes = types_file(scratch, tier)
+    tp, tres, ntypes = types_file(scratch, tier, names=check in ("C01", "C13"))
     tl = [tres] + list(extra_tlc)
     binary = vlib.build_harness(scratch)
     params = dict(types=tp, rand_modes=2 if tier == "quick" else 3, check=check)
